@@ -90,6 +90,9 @@ def main(argv):
                 jobs.append((g, False, rlimit * 2, s, f".s{s}"))
     results = []
     undecided = []
+    replay_res, replay_out, replay_note = ({}, "", None)
+    if tier == "thorough":
+        replay_res, replay_out, replay_note = run_replays(pid, known)
     try:
         with cf.ThreadPoolExecutor(max_workers=min(8, len(jobs))) as ex:
             futs = [ex.submit(run_group, *j) for j in jobs]
@@ -100,7 +103,11 @@ def main(argv):
     except (OSError, ValueError, KeyError, IndexError, AssertionError) as e:
         undecided.append(f"extraction failed: {type(e).__name__}: {e}")
     if undecided:
-        return finish_undecided(pid, tier, seed, undecided, t0)
+        lines = replay_violation_lines(pid, replay_res, replay_out)
+        for ln in lines:
+            print(ln)
+        rc = finish_undecided(pid, tier, seed, undecided, t0)
+        return 1 if lines else rc
 
     main_runs = [r for r in results if not r["canary"] and "_s" not in os.path.basename(r["path"])]
     canary_runs = [r for r in results if r["canary"]]
@@ -189,11 +196,17 @@ def main(argv):
             continue
         violations.append((oid, msgs))
 
-    if undecided and not violations:
+    if replay_note and not replay_note.startswith("replays skipped"):
+        undecided.append(replay_note)
+
+    if undecided and not violations and "FAILED" not in replay_res.values():
         return finish_undecided(pid, tier, seed, undecided, t0)
 
     os.makedirs(os.path.join(BUILD, "replay"), exist_ok=True)
     out_lines = []
+    rl = replay_violation_lines(pid, replay_res, replay_out)
+    out_lines += rl
+    replay_violations = len(rl)
     for oid, msgs in violations:
         info = obligations[oid]
         rp = os.path.join(BUILD, "replay", f"{pid}-{re.sub(r'[^A-Za-z0-9_.-]', '_', oid)}.json")
@@ -238,8 +251,11 @@ def main(argv):
         },
         "assumptions": prop.get("assumptions", []),
         "wall_s": round(wall, 2),
-        "violations": len(violations),
+        "violations": len(violations) + replay_violations,
     }
+    if tier == "thorough":
+        ev["coverage"]["finding_witness_replays"] = {"results": replay_res, "note": replay_note,
+            "meaning": "tests of /verif/replay that run the concrete witnesses of this property's repaired findings against the real crate built from /repo's working tree"}
     os.makedirs(os.path.join(ROOT, "evidence"), exist_ok=True)
     json.dump(ev, open(os.path.join(ROOT, "evidence", pid + ".json"), "w"), indent=1)
     for ln in out_lines:
@@ -249,7 +265,59 @@ def main(argv):
     if undecided:
         for u in undecided:
             print("note (undecided part):", u)
-    return 1 if violations else 0
+    return 1 if (violations or replay_violations) else 0
+
+
+def run_replays(pid, known):
+    """thorough tier: the concrete witnesses of this property's FIXED findings are replayed on the real crate
+    (/verif/replay, path dependency on /repo's working tree).  -> (results {test: 'ok'|'FAILED'}, raw output, note)"""
+    import subprocess
+    names = sorted({k["id"].lower().replace("-", "_") for k in known if k["status"] == "fixed"})
+    if not names:
+        return {}, "", None
+    if A.REPO != "/repo":
+        return {}, "", "replays skipped: the replay crate depends on /repo by path and VERIF_REPO points elsewhere"
+    cmd = ["cargo", "test", "--offline", "--manifest-path", os.path.join(ROOT, "replay", "Cargo.toml"),
+           "--test", "findings", "--test", "frontends", "--test", "c19", "--"] + names + ["--test-threads", "2"]
+    env = dict(os.environ, CARGO_NET_OFFLINE="true")
+    try:
+        pr = subprocess.run(cmd, capture_output=True, text=True, timeout=1500, env=env)
+    except subprocess.TimeoutExpired:
+        return {}, "", "replays timed out"
+    out = pr.stdout + pr.stderr
+    res = {}
+    for m in re.finditer(r"^test (f_c\d+_\w+) \.\.\. (ok|FAILED)", out, re.M):
+        res[m.group(1)] = m.group(2)
+    # the replays use real sockets and timers: a failure must reproduce when the test is run again on its own
+    for tname in [t for t, st in res.items() if st == "FAILED"]:
+        try:
+            p2 = subprocess.run(cmd[:cmd.index("--")] + ["--", tname, "--exact", "--test-threads", "1"], capture_output=True, text=True, timeout=600, env=env)
+        except subprocess.TimeoutExpired:
+            continue
+        if re.search(r"^test " + re.escape(tname) + r" \.\.\. ok", p2.stdout + p2.stderr, re.M):
+            res[tname] = "ok"
+            out += f"\n[{tname}: failed once, passed when re-run alone: counted as ok]\n"
+    note = None
+    if not res:
+        note = "replay crate did not build or ran no test: " + out[-400:].replace("\n", " ")
+    return res, out, note
+
+
+def replay_violation_lines(pid, replay_res, replay_out):
+    """a fixed finding whose concrete witness fails again on the real code: violation WITH a failing input"""
+    lines = []
+    os.makedirs(os.path.join(BUILD, "replay"), exist_ok=True)
+    for tname, st in sorted(replay_res.items()):
+        if st != "FAILED":
+            continue
+        rp = os.path.join(BUILD, "replay", f"{pid}-replay-{tname}.txt")
+        m = re.search(r"---- " + re.escape(tname) + r" stdout ----(.*?)(?=\n---- |\nfailures:)", replay_out, re.S)
+        with open(rp, "w") as f:
+            f.write(f"property {pid}: the witness of a repaired finding fails again on the real code\n"
+                    f"rerun: cargo test --offline --manifest-path /verif/replay/Cargo.toml {tname}\n"
+                    f"(the failing input is the one constructed by the test {tname} in /verif/replay/tests)\n\n" + (m.group(1) if m else replay_out[-3000:]))
+        lines.append(f"VIOLATION property={pid} replay={rp} finding-witness={tname}")
+    return lines
 
 
 def finish_undecided(pid, tier, seed, undecided, t0):
